@@ -356,7 +356,19 @@ Definition spec (i : input) (o : observed) : bool :=
         end
       else match ct with None => true | Some _ => false end
   | IOpen _ _ _, OOpen _ => true
-  | IRound ty vals claims orc, ORound doc back => spec_round ty vals claims orc doc back
+  | IRound ty vals claims orc, ORound doc back =>
+      spec_round ty vals claims orc doc back &&
+      (* "never a value the document did not contain", on the decoding half of the
+         round trip: every member of the decoded value is empty or a documented
+         reading of the entry of ITS name in the bytes Marshal wrote - a member the
+         document lacks stays empty whatever look-alike custom claims (scp, roles,
+         audience ...) the document holds *)
+      match doc, back with
+      | Some (JObj d), Some (vals', _) =>
+          negb (rt_guard orc (schema_of ty) vals claims) || negb (decode_domain (schema_of ty) d) ||
+          fields_from orc (schema_of ty) vals' d
+      | _, _ => true
+      end
   | IDec ty doc orc, ODec r reenc =>
       match r with
       | None => true
